@@ -27,8 +27,8 @@ cargo test --offline --test seeded_demo 2>&1 | grep -E "^test result|error" | he
 without=$(tail -3 $log | grep -c "test result: ok")
 echo "RESULT demo_fails_with=$with suite_passes_with=$suite demo_passes_without=$without" >> $log
 # our checks against /repo
-cd /repo && git diff --quiet || { echo "repo dirty, skipping checks" >> $log; exit 2; }
 ( flock 9
+  git -C /repo diff --quiet || { echo "repo dirty, skipping checks" >> $log; exit 2; }
   git -C /repo apply $out/patch.diff || { echo "patch does not apply to /repo" >> $log; exit 2; }
   for c in $checks; do echo "== check $c quick (patched /repo)" >> $log; (cd /verif && timeout 900 ./check $c quick 2>&1 | cut -c1-300 | head -14 >> $log; echo "exit=${PIPESTATUS[0]}" >> $log); done
   git -C /repo checkout -- .
